@@ -4,9 +4,13 @@ import (
 	"encoding/base64"
 	"fmt"
 	"net"
+	"os"
+	"strconv"
 	"strings"
 	"time"
 
+	"verifharness/dump"
+	"verifharness/proxy"
 	"verifharness/respc"
 	"verifharness/srv"
 )
@@ -465,4 +469,180 @@ func (r *runner) protectedProbes(password string) {
 	probe("password_set", []string{"--protected-mode", "yes", "-h", ""}, "", func(c *respc.Conn) { c.Do("CONFIG", "SET", "requirepass", password) })
 	probe("config_protected_mode_no", []string{"--protected-mode", "yes", "-h", ""}, "", func(c *respc.Conn) { c.Do("CONFIG", "SET", "protected-mode", "no") })
 	probe("bind_address_0.0.0.0", []string{"--protected-mode", "yes"}, "0.0.0.0", nil)
+}
+
+// ---- (g) a password set at run time locks out connections that are already open
+
+// runtimePasswordProbe: connections that were opened (idle, or already used
+// for reads and writes) while no password was configured are unauthenticated
+// once CONFIG SET requirepass is acknowledged: no data, no change, and a wrong
+// AUTH changes nothing about that.
+func (r *runner) runtimePasswordProbe(password string) {
+	ctx := r.ctx
+	s, err := srv.Start(srv.Opts{Bin: r.bin})
+	if err != nil {
+		ctx.Inconclusive("runtime password probe: " + err.Error())
+		return
+	}
+	defer s.Kill9()
+	admin, err := dial(s.Addr())
+	if err != nil {
+		ctx.Inconclusive("runtime password probe: " + err.Error())
+		return
+	}
+	defer admin.Close()
+	admin.Do("SET", "fleet", "truck1", "FIELD", "speed", "10", "POINT", "33", "-112")
+	used, err1 := dial(s.Addr())
+	idle, err2 := dial(s.Addr())
+	if err1 != nil || err2 != nil {
+		ctx.Inconclusive("runtime password probe: dial")
+		return
+	}
+	defer used.Close()
+	defer idle.Close()
+	for _, c := range [][]string{{"PING"}, {"GET", "fleet", "truck1"}, {"SET", "fleet", "early", "POINT", "1", "1"}, {"SCAN", "fleet", "IDS"}, {"EVAL", "return 1", "0"}} {
+		used.Do(c...)
+	}
+	if rp, err := admin.Do("CONFIG", "SET", "requirepass", password); err != nil || rp.IsErr() {
+		ctx.Inconclusive("runtime password probe: CONFIG SET requirepass failed")
+		return
+	}
+	admin.Do("AUTH", password)
+	before, err := dump.Take(s.Addr(), dump.Opts{Password: password})
+	if err != nil {
+		ctx.Inconclusive("runtime password probe: " + err.Error())
+		return
+	}
+	cmds := [][]string{{"GET", "fleet", "truck1"}, {"SCAN", "fleet", "IDS"}, {"KEYS", "*"}, {"SET", "fleet", "intruder", "POINT", "1", "1"}, {"DEL", "fleet", "truck1"}, {"FSET", "fleet", "truck1", "speed", "99"},
+		{"EVAL", "return tile38.call('get','fleet','truck1')", "0"}, {"EVALNA", "return tile38.call('set','fleet','x','point',1,1)", "0"}, {"SERVER"}, {"CONFIG", "GET", "requirepass"}, {"FLUSHDB"}}
+	for name, c := range map[string]*respc.Conn{"used-before": used, "idle-before": idle} {
+		for round := 0; round < 2; round++ {
+			if round == 1 {
+				c.Do("AUTH", "wrong-"+password)
+			}
+			for _, cmd := range cmds {
+				rp, err := c.Do(cmd...)
+				if err != nil {
+					break
+				}
+				ctx.Eval(1)
+				ctx.Distinct("runtime-password|" + name + "|" + cmd[0] + "|" + strconv.Itoa(round))
+				if !rp.IsErr() {
+					ctx.Violation("auth:open-connection-kept-access:"+name, fmt.Sprintf("a connection opened before `CONFIG SET requirepass` (%s; never authenticated%s) got a non-error reply to %q afterwards: %s", name, map[int]string{0: "", 1: ", one wrong AUTH"}[round], cmd, trunc(rp.String(), 120)),
+						map[string]any{"connection": name, "command": cmd, "reply": rp.String()})
+					return
+				}
+			}
+		}
+	}
+	after, err := dump.Take(s.Addr(), dump.Opts{Password: password})
+	if err == nil {
+		if d := dump.Diff(before, after); d != "" {
+			ctx.Violation("auth:open-connection-changed-state", "connections opened before the password was set changed the dataset afterwards: "+d, nil)
+		}
+	}
+}
+
+// ---- (h) a follower in the middle of its first synchronisation
+
+// partialSyncProbe: a follower that has applied some, but not all, of its
+// leader's log (the stream is throttled by a proxy) has never caught up: object
+// reads and searches are refused while its log is shorter than the leader's.
+func (r *runner) partialSyncProbe() {
+	ctx := r.ctx
+	leader, err := srv.Start(srv.Opts{Bin: r.bin})
+	if err != nil {
+		ctx.Inconclusive("partial sync probe: " + err.Error())
+		return
+	}
+	defer leader.Kill9()
+	lc, err := dial(leader.Addr())
+	if err != nil {
+		ctx.Inconclusive("partial sync probe: " + err.Error())
+		return
+	}
+	defer lc.Close()
+	for i := 0; i < 300; i++ {
+		lc.Send("SET", "fleet", "t"+strconv.Itoa(i), "FIELD", "speed", strconv.Itoa(i), "POINT", "33", "-112")
+	}
+	for i := 0; i < 10; i++ {
+		lc.Send("SET", "big", "b"+strconv.Itoa(i), "STRING", strings.Repeat("v", 50000))
+	}
+	for i := 0; i < 310; i++ {
+		if rp, err := lc.Recv(); err != nil || rp.IsErr() {
+			ctx.Inconclusive("partial sync probe: leader load")
+			return
+		}
+	}
+	time.Sleep(1200 * time.Millisecond)
+	size := func(c *respc.Conn) int64 {
+		f, err := serverFields(c)
+		if err != nil {
+			return -1
+		}
+		n, _ := strconv.ParseInt(f["aof_size"], 10, 64)
+		return n
+	}
+	L := size(lc)
+	px, err := proxy.Start(leader.Addr())
+	if err != nil {
+		ctx.Inconclusive("partial sync probe: " + err.Error())
+		return
+	}
+	defer px.Close()
+	px.Throttle(300, 20*time.Millisecond)
+	follower, err := srv.Start(srv.Opts{Bin: r.bin})
+	if err != nil {
+		ctx.Inconclusive("partial sync probe: " + err.Error())
+		return
+	}
+	defer follower.Kill9()
+	fc, err := dial(follower.Addr())
+	if err != nil {
+		ctx.Inconclusive("partial sync probe: " + err.Error())
+		return
+	}
+	defer fc.Close()
+	if rp, err := fc.Do("FOLLOW", "127.0.0.1", strconv.Itoa(px.Port())); err != nil || rp.IsErr() {
+		ctx.Inconclusive("partial sync probe: FOLLOW failed")
+		return
+	}
+	// a follower that is catching up does not answer SERVER: its progress is read from its log file
+	// (written at least once a second, so it never runs ahead of what was applied)
+	fsize := func() int64 {
+		fi, err := os.Stat(follower.AOFPath())
+		if err != nil {
+			return -1
+		}
+		return fi.Size()
+	}
+	dl := time.Now().Add(15 * time.Second)
+	for fsize() <= 0 && time.Now().Before(dl) {
+		time.Sleep(20 * time.Millisecond)
+	}
+	if s0 := fsize(); s0 <= 0 || s0 >= L {
+		ctx.Inconclusive(fmt.Sprintf("partial sync probe: follower log %d of %d bytes: no partial state to observe", s0, L))
+		return
+	}
+	reads := [][]string{{"GET", "fleet", "t0"}, {"SCAN", "fleet", "LIMIT", "3", "IDS"}, {"NEARBY", "fleet", "LIMIT", "3", "IDS", "POINT", "33", "-112"}, {"WITHIN", "fleet", "LIMIT", "3", "IDS", "BOUNDS", "30", "-115", "35", "-110"},
+		{"INTERSECTS", "fleet", "LIMIT", "3", "IDS", "BOUNDS", "30", "-115", "35", "-110"}, {"SEARCH", "big", "LIMIT", "1", "IDS"}, {"GET", "big", "b9"}, {"GET", "fleet", "t299"},
+		{"EVALRO", "return tile38.call('get','fleet','t0')", "0"}, {"EVALNA", "return tile38.call('scan','fleet','limit','2','ids')", "0"}}
+	for round := 0; round < 3; round++ {
+		for _, cmd := range reads {
+			s1 := fsize()
+			rp, err := fc.Do(cmd...)
+			s2 := fsize()
+			if err != nil || s1 <= 0 || s2 <= 0 || s2 >= L {
+				continue
+			}
+			ctx.Eval(1)
+			ctx.Distinct("partial-sync|" + cmd[0] + "|" + cmd[1])
+			if !rp.IsErr() {
+				ctx.Violation("gate:follower-partial-sync:read-served:"+strings.ToLower(cmd[0]), fmt.Sprintf("a follower in its first synchronisation (own log %d .. %d bytes, leader's %d bytes) answered %q with %s", s1, s2, L, cmd, trunc(rp.String(), 120)),
+					map[string]any{"command": cmd, "follower_log_bytes": []int64{s1, s2}, "leader_log_bytes": L, "reply": rp.String()})
+				return
+			}
+		}
+		time.Sleep(150 * time.Millisecond)
+	}
 }
